@@ -179,7 +179,7 @@ func arity(op string) int {
 	switch op {
 	case "gc":
 		return 0
-	case "sl", "get", "del", "ex", "ttl", "getl", "hall", "gck":
+	case "sl", "get", "del", "ex", "ttl", "getl", "hall", "gck", "holdcheck":
 		return 1
 	case "exp", "app", "rem", "hget", "hdel", "incr":
 		return 2
@@ -334,6 +334,8 @@ func doCall(st types.FullStorage, it item) (obs string) {
 		return "n" + strconv.FormatInt(n, 10)
 	case "gc":
 		return errTok(st.CleanupExpired())
+	case "holdcheck":
+		return holdCheck(st, keyOf(a[0]))
 	case "gck":
 		return "ok" // second critical section of another caller's GetHash: not callable by itself
 	}
@@ -791,6 +793,12 @@ func execLine(line string, rounds int) []string {
 		return nil
 	}
 	switch ts[0] {
+	case "alias":
+		its, err := parseAlias(ts[1:])
+		if err != nil {
+			return []string{"bad-case"}
+		}
+		return []string{runAlias(its)}
 	case "mem", "red":
 		its, err := parseItems(ts[1:])
 		if err != nil {
@@ -839,7 +847,7 @@ func execLine(line string, rounds int) []string {
 		if e1 != nil || e2 != nil || e3 != nil {
 			return []string{"bad-case"}
 		}
-		copies, br := 16, 2
+		copies, br := 12, 2
 		if rounds > 1000 { // thorough
 			br = 12
 		}
@@ -897,7 +905,7 @@ func modeOf(line string) string {
 		return ""
 	}
 	switch ts[0] {
-	case "mem":
+	case "mem", "alias":
 		return "mem"
 	case "red":
 		return "red"
@@ -971,6 +979,7 @@ func main() {
 		switch *mode {
 		case "mem":
 			lines = append(lines, genMem(rng, thorough)...)
+			lines = append(lines, genAlias(rng, thorough)...)
 		case "red":
 			lines = append(lines, genRed(rng, thorough)...)
 		case "conc":
